@@ -64,8 +64,8 @@ fn shadow_step(b: &mut Inst, real: bool) -> Result<(), lc3_ensemble::sim::SimErr
     }
     r
 }
-fn mk(text: &str, real: bool, fill: u16, kbd: &[u8]) -> Option<Inst> {
-    let mut sim = Simulator::new(SimFlags { use_real_traps: real, machine_init: MachineInitStrategy::Known { value: fill }, ..Default::default() });
+fn mk(text: &str, real: bool, fill: u16, kbd: &[u8], dbg: bool) -> Option<Inst> {
+    let mut sim = Simulator::new(SimFlags { use_real_traps: real, debug_frames: dbg, machine_init: MachineInitStrategy::Known { value: fill }, ..Default::default() });
     let kb = BufferedKeyboard::default(); kb.get_buffer().write().unwrap().extend(kbd.iter().copied()); sim.device_handler.set_keyboard(kb);
     let ds = BufferedDisplay::default(); sim.device_handler.set_display(ds.clone());
     let ast = lc3_ensemble::parse::parse_ast(text).ok()?;
@@ -158,6 +158,8 @@ fn gen_bp(rng: &mut Rng, labels: &[u16]) -> Bp {
     match rng.below(5) {
         0 | 1 => Bp::Pc(if rng.chance(3, 4) && !labels.is_empty() { *rng.pick(labels) } else { 0x3000 + rng.below(0x80) as u16 }),
         2 | 3 => { let v = *rng.pick(&[0u16, 1, 5, 0xFFFF, 0x8000, 0x3000]); let c = match rng.below(6) { 0 => Cmp::Always, 1 => Cmp::Never, _ => cmp(rng, v) }; Bp::Reg(rng.below(8) as u8, if matches!(c, Cmp::Always) && rng.chance(2, 3) { Cmp::Eq(v) } else { c }) }
+        // memory breakpoints also on I/O addresses: the comparator sees the word latched in memory (display data, last key, ...)
+        _ if rng.chance(1, 4) => { let a = *rng.pick(&[0xFE06u16, 0xFE06, 0xFE02, 0xFE04, 0xFE00, 0xFFFC]); let v = if a == 0xFE06 || a == 0xFE02 { 0x21 + rng.below(0x5d) as u16 } else { *rng.pick(&[0u16, 0x8000, 0x8002]) }; Bp::Mem(a, match rng.below(4) { 0 | 1 => Cmp::Eq(v), 2 => Cmp::Gt(v), _ => Cmp::Ge(v) }) }
         _ => { let a = if rng.bool() && !labels.is_empty() { *rng.pick(labels) } else { 0x3000 + rng.below(0x100) as u16 }; let v = rng.u16() & 0xFF; Bp::Mem(a, match rng.below(4) { 0 => Cmp::Eq(v), 1 => Cmp::Ne(v), 2 => Cmp::Lt(v), _ => Cmp::Ge(v) }) }
     }
 }
@@ -170,7 +172,8 @@ fn run(ctx: &mut Ctx) {
         let prog = gen_user_prog(rng, &opts);
         let kbd: Vec<u8> = (0..prog.kbd_needed + 1).map(|_| 1 + rng.below(255) as u8).collect();
         let fill = rng.u16();
-        let (Some(mut a), Some(mut b), Some(mut c)) = (mk(&prog.text, real, fill, &kbd), mk(&prog.text, real, fill, &kbd), mk(&prog.text, real, fill, &kbd)) else { ctx.count("not-assembled"); return };
+        let dbg = rng.chance(1, 3); // recording frames must not change where run-style calls stop
+        let (Some(mut a), Some(mut b), Some(mut c)) = (mk(&prog.text, real, fill, &kbd, dbg), mk(&prog.text, real, fill, &kbd, dbg), mk(&prog.text, real, fill, &kbd, dbg)) else { ctx.count("not-assembled"); return };
         // statement addresses for breakpoints
         // the instruction counter is a public field: start it near the wrap-around point in some cases
         if rng.chance(1, 5) { let c0 = *rng.pick(&[u64::MAX - 2, u64::MAX - 40, u64::MAX, 1u64 << 63]); a.sim.instructions_run = c0; b.sim.instructions_run = c0; c.sim.instructions_run = c0; }
@@ -191,7 +194,7 @@ fn run(ctx: &mut Ctx) {
             let call = match rng.below(12) { 0 | 1 => Call::Run, 2 | 3 => Call::Limit(*rng.pick(&[0u64, 1, 2, 5, 50, 1000, u64::MAX, u64::MAX - 3, 1 << 63])), 4 => Call::WhileStop(1 + rng.below(30)), 5 => Call::WhileClearMcr(1 + rng.below(30)), 6 | 7 => Call::StepOver, 8 | 9 => Call::StepOut, _ => Call::StepIn };
             hist.push(format!("{call:?}"));
             ctx.eval();
-            let case = || Json::obj().set("program", prog.text.as_str()).set("real_traps", real).set("kbd", format!("{kbd:?}")).set("fill", fill).set("history", Json::Arr(hist.iter().map(|h| Json::from(h.as_str())).collect()));
+            let case = || Json::obj().set("program", prog.text.as_str()).set("real_traps", real).set("debug_frames", dbg).set("kbd", format!("{kbd:?}")).set("fill", fill).set("history", Json::Arr(hist.iter().map(|h| Json::from(h.as_str())).collect()));
             let ir0 = a.sim.instructions_run;
             let Some(got) = ctx.no_panic("run-style call", case, || exec(&mut a, &call)) else { return };
             last_result = got.clone();
@@ -217,7 +220,7 @@ fn run(ctx: &mut Ctx) {
         if productive >= 2 { ctx.nontrivial(crate::rng::hash_bytes(format!("{}{hist:?}", prog.text).as_bytes())); }
         // split vs unbroken
         a.sim.breakpoints.clear();
-        let case = || Json::obj().set("program", prog.text.as_str()).set("real_traps", real).set("kbd", format!("{kbd:?}")).set("fill", fill).set("history", Json::Arr(hist.iter().map(|h| Json::from(h.as_str())).collect()));
+        let case = || Json::obj().set("program", prog.text.as_str()).set("real_traps", real).set("debug_frames", dbg).set("kbd", format!("{kbd:?}")).set("fill", fill).set("history", Json::Arr(hist.iter().map(|h| Json::from(h.as_str())).collect()));
         let ra = if ended { Ok(()) } else { a.sim.run_with_limit(2_000_000).map_err(|e| err_kind(&e).to_string()) };
         let ra = if ended { hist.last().map(|_| ()).map(|_| last_result.clone()).unwrap_or(Ok(())) } else { ra };
         let rc = c.sim.run_with_limit(2_000_000).map_err(|e| err_kind(&e).to_string());
@@ -230,7 +233,7 @@ fn run(ctx: &mut Ctx) {
     let n = ctx.tier.pick_exact(24, 2_000);
     ctx.cases(1, n, |ctx, rng, _| {
         let text = ".orig x3000\nAND R0, R0, #0\nLOOP ADD R0, R0, #1\nST R0, CELL\nLD R1, CELL\nBR LOOP\nCELL .blkw 1\n.end\n";
-        let (Some(mut a), Some(mut b)) = (mk(text, rng.bool(), 7, &[]), mk(text, false, 7, &[])) else { return };
+        let (Some(mut a), Some(mut b)) = (mk(text, rng.bool(), 7, &[], false), mk(text, false, 7, &[], false)) else { return };
         b.sim.flags.use_real_traps = a.sim.flags.use_real_traps;
         let mcr = a.sim.mcr().clone();
         let delay = std::time::Duration::from_micros(50 + rng.below(3000));
